@@ -162,6 +162,35 @@ func genC01(g *Gen) {
 	p.Topos = []Topology{g.pickTopology()}
 	g.swarmProxy()
 	g.swarmKernel(false)
+	if p.Variant == "backlog" {
+		// a client that pipelines requests with large replies and does not read for a while: megabytes of replies pile up in the
+		// proxy behind a full socket, more requests (forwarded and local) are already waiting, then it reads everything
+		g.cleanKernel()
+		p.Kernel.ClientSndCap = 65536
+		p.Proxy.BufCap = 65536
+		p.Proxy.Password = ""
+		p.Sched.MaxSteps = 20000
+		p.Sched.SettleS = 12
+		// open loop: a request every 2 ms, so that the last ones arrive when the replies of the first ones already fill the
+		// proxy's outbound buffer
+		cp := ClientPlan{Addr: clientAddr(0), Mode: "pipeline", CloseAfterSent: -1, CloseAfterReplies: -1, ReadAfterMs: g.R.Range(500, 900), TailAfterAnswered: 8}
+		p.Sched.WTime = 3
+		n := g.R.Range(70, 130)
+		for ri := 0; ri < n; ri++ {
+			tok := Tok(0, ri)
+			cp.Reqs = append(cp.Reqs, g.Single(tok, "hget", Key(tok, 0, -1, fmt.Sprintf("~S5~L%d", g.R.Range(60000, 70000))), "f")) // scripted reply: a bulk of that size
+		}
+		for ri := n; ri < n+8; ri++ {
+			tok := Tok(0, ri)
+			if g.R.Pct(40) {
+				cp.Reqs = append(cp.Reqs, g.randomLocal(tok, ""))
+			} else {
+				cp.Reqs = append(cp.Reqs, g.randomSingle(tok, -1))
+			}
+		}
+		p.Clients = append(p.Clients, cp)
+		return
+	}
 	nc := g.R.Range(1, 4)
 	maxReq := 40
 	if p.Variant == "deep" {
